@@ -91,45 +91,56 @@ operand is out of range or the stack is too low.  Stack effects are those of `Vm
 def effect (cx : Cx) (i : Instr) (pc h : Nat) : Except String (List (Nat × Nat)) :=
   let next := pc + i.len
   let simple (pops pushes : Nat) : Except String (List (Nat × Nat)) :=
-    if pops ≤ h then .ok [(next, h - pops + pushes)] else .error s!"stack-too-low:{i.name}"
-  match i.name, i.ops with
-  | "Constant", [k] => if k < cx.consts.length then simple 0 1 else .error "constant-index"
-  | "Pop", [] => simple 1 0
-  | "Add", [] | "Sub", [] | "Mul", [] | "Div", [] | "Mod", [] | "Equal", [] | "NotEqual", []
-  | "Greater", [] | "GreaterEq", [] | "And", [] | "Or", [] | "Xor", [] | "ShiftLeft", [] | "ShiftRight", []
-  | "GetIndex", [] => simple 2 1
-  | "True", [] | "False", [] | "Null", [] => simple 0 1
-  | "Minus", [] | "Bang", [] | "Not", [] | "Dollar", [] => simple 1 1
-  | "GetProp", [_] => simple 1 1
-  | "SetProp", [_] => simple 2 1
-  | "SetIndex", [] => simple 3 1
-  | "Dup", [] => if 1 ≤ h then .ok [(next, h + 1)] else .error "stack-too-low:Dup"
-  | "Jump", [t] => .ok [(t, h)]
-  | "JumpIfFalse", [t] => if 1 ≤ h then .ok [(next, h - 1), (t, h - 1)] else .error "stack-too-low:JumpIfFalse"
-  | "JumpIfFalseNoPop", [t] => if 1 ≤ h then .ok [(next, h), (t, h)] else .error "stack-too-low:JumpIfFalseNoPop"
-  | "DefineGlobal", [g] => if g < P2sh.Gen.Limits.GLOBALS_SIZE then simple 1 0 else .error "global-index"
-  | "GetGlobal", [g] => if g < P2sh.Gen.Limits.GLOBALS_SIZE then simple 0 1 else .error "global-index"
-  | "SetGlobal", [g] => if g < P2sh.Gen.Limits.GLOBALS_SIZE then simple 1 1 else .error "global-index"
-  | "Array", [n] => simple n 1
-  | "Map", [n] => simple n 1
-  | "Call", [n] => simple (n + 1) 1
-  | "ReturnValue", [] =>
-    if cx.kind = .main then .error "return-in-main" else if 1 ≤ h then .ok [] else .error "stack-too-low:ReturnValue"
-  | "Return", [] => if cx.kind = .main then .error "return-in-main" else .ok []
-  | "DefineLocal", [l] => if l < cx.fn.numLocals then simple 1 0 else .error "local-index"
-  | "GetLocal", [l] => if l < cx.fn.numLocals then simple 0 1 else .error "local-index"
-  | "SetLocal", [l] => if l < cx.fn.numLocals then simple 1 1 else .error "local-index"
-  | "GetBuiltinFn", [b] => if b < P2sh.Gen.Builtins.fns.length then simple 0 1 else .error "builtin-index"
-  | "GetBuiltinVar", [b] => if b < P2sh.Gen.Builtins.varFromUsize.length then simple 0 1 else .error "builtin-var-index"
-  | "Closure", [c, n] =>
-    (match cx.consts[c]? with
-     | some (.func g) => if freeNeed g ≤ n then simple n 1 else .error "closure-free-count"
-     | some _ => .error "closure-constant-not-a-function"
-     | none => .error "constant-index")
-  | "GetFree", [k] => if k < cx.nfree then simple 0 1 else .error "free-index"
-  | "SetFree", [k] => if k < cx.nfree then simple 1 1 else .error "free-index"
-  | "CurrClosure", [] => if cx.kind = .main then .error "currclosure-in-main" else simple 0 1
-  | _, _ => .error s!"no-effect:{i.name}"
+    if pops ≤ h then .ok [(next, h - pops + pushes)] else .error "stack-too-low"
+  let op0 (r : Except String (List (Nat × Nat))) : Except String (List (Nat × Nat)) :=
+    match i.ops with
+    | [] => r
+    | _ => .error "operand-count"
+  let op1 (r : Nat → Except String (List (Nat × Nat))) : Except String (List (Nat × Nat)) :=
+    match i.ops with
+    | [k] => r k
+    | _ => .error "operand-count"
+  match i.name with
+  | "Constant" => op1 fun k => if k < cx.consts.length then simple 0 1 else .error "constant-index"
+  | "Pop" => op0 (simple 1 0)
+  | "Add" | "Sub" | "Mul" | "Div" | "Mod" | "Equal" | "NotEqual" | "Greater" | "GreaterEq" | "And" | "Or" | "Xor"
+  | "ShiftLeft" | "ShiftRight" | "GetIndex" => op0 (simple 2 1)
+  | "True" | "False" | "Null" => op0 (simple 0 1)
+  | "Minus" | "Bang" | "Not" | "Dollar" => op0 (simple 1 1)
+  | "GetProp" => op1 fun _ => simple 1 1
+  | "SetProp" => op1 fun _ => simple 2 1
+  | "SetIndex" => op0 (simple 3 1)
+  | "Dup" => op0 (if 1 ≤ h then .ok [(next, h + 1)] else .error "stack-too-low")
+  | "Jump" => op1 fun t => .ok [(t, h)]
+  | "JumpIfFalse" => op1 fun t => if 1 ≤ h then .ok [(next, h - 1), (t, h - 1)] else .error "stack-too-low"
+  | "JumpIfFalseNoPop" => op1 fun t => if 1 ≤ h then .ok [(next, h), (t, h)] else .error "stack-too-low"
+  | "DefineGlobal" => op1 fun g => if g < P2sh.Gen.Limits.GLOBALS_SIZE then simple 1 0 else .error "global-index"
+  | "GetGlobal" => op1 fun g => if g < P2sh.Gen.Limits.GLOBALS_SIZE then simple 0 1 else .error "global-index"
+  | "SetGlobal" => op1 fun g => if g < P2sh.Gen.Limits.GLOBALS_SIZE then simple 1 1 else .error "global-index"
+  | "Array" => op1 fun n => simple n 1
+  | "Map" => op1 fun n => simple n 1
+  | "Call" => op1 fun n => simple (n + 1) 1
+  | "ReturnValue" => op0 (
+    if cx.kind = .main then .error "return-in-main" else if 1 ≤ h then .ok [] else .error "stack-too-low")
+  | "Return" => op0 (if cx.kind = .main then .error "return-in-main" else .ok [])
+  | "DefineLocal" => op1 fun l => if l < cx.fn.numLocals then simple 1 0 else .error "local-index"
+  | "GetLocal" => op1 fun l => if l < cx.fn.numLocals then simple 0 1 else .error "local-index"
+  | "SetLocal" => op1 fun l => if l < cx.fn.numLocals then simple 1 1 else .error "local-index"
+  | "GetBuiltinFn" => op1 fun b => if b < P2sh.Gen.Builtins.fns.length then simple 0 1 else .error "builtin-index"
+  | "GetBuiltinVar" => op1 fun b =>
+    if b < P2sh.Gen.Builtins.varFromUsize.length then simple 0 1 else .error "builtin-var-index"
+  | "Closure" =>
+    (match i.ops with
+     | [c, n] =>
+       (match cx.consts[c]? with
+        | some (.func g) => if freeNeed g ≤ n then simple n 1 else .error "closure-free-count"
+        | some _ => .error "closure-constant-not-a-function"
+        | none => .error "constant-index")
+     | _ => .error "operand-count")
+  | "GetFree" => op1 fun k => if k < cx.nfree then simple 0 1 else .error "free-index"
+  | "SetFree" => op1 fun k => if k < cx.nfree then simple 1 1 else .error "free-index"
+  | "CurrClosure" => op0 (if cx.kind = .main then .error "currclosure-in-main" else simple 0 1)
+  | _ => .error "no-effect"
 
 abbrev Heights := Array (Option Nat)
 
@@ -150,8 +161,10 @@ def okAt (cx : Cx) (H : Heights) (pc h : Nat) : Bool :=
     | .error _ => false
     | .ok succs => succs.all (succOk cx H)
 
-def verify (cx : Cx) (H : Heights) : Bool :=
-  hAt H 0 = some 0 &&
+/-- **the verified certificate**: the entry has height 0 (for an empty main code: the end has), and every
+entry of the table satisfies `okAt` -/
+def accept (cx : Cx) (H : Heights) : Bool :=
+  succOk cx H (0, 0) &&
   (List.range cx.fn.code.length).all fun pc =>
     match hAt H pc with
     | none => true
@@ -175,7 +188,7 @@ def propagateAt (cx : Cx) (starts : Array Bool) (pc h : Nat) (H : Heights) : Exc
     | .error e => throw s!"{e}@{pc}"
   let succs ← match effect cx i pc h with
     | .ok s => pure s
-    | .error e => throw s!"{e}@{pc}"
+    | .error e => throw s!"{e}:{i.name}@{pc}"
   let mut H := H
   let mut changed := false
   for (pc', h') in succs do
@@ -228,8 +241,8 @@ def stmtStartsOf (cx : Cx) (H : Heights) : List (Nat × Nat) :=
       if i.name == "Pop" || i.name == "DefineGlobal" || i.name == "DefineLocal" then some (pc + i.len, h - 1) else none
     | _, _ => none
 
-/-- verify one function's code -/
-def checkCx (cx : Cx) : Except String Summary := do
+/-- the untrusted search: linear decoding, forward propagation, the static stack limit -/
+def search (cx : Cx) : Except String Heights := do
   let n := cx.fn.code.length
   let starts ← linStarts cx.fn.code (n + 1) 0 (Array.replicate n false)
   let H0 : Heights := (Array.replicate n none)
@@ -239,8 +252,17 @@ def checkCx (cx : Cx) : Except String Summary := do
   let H ← propagate cx starts (n + 1) (H0.set! 0 (some 0))
   let maxH := H.foldl (fun m o => max m (o.getD 0)) 0
   if cx.fn.numLocals + maxH > P2sh.Gen.Limits.STACK_SIZE then throw s!"stack-limit:{cx.fn.numLocals}+{maxH}"
-  if n != 0 && !verify cx H then throw "verification-failed"
-  pure { heights := H, maxHeight := maxH, stmtStarts := stmtStartsOf cx H, nfree := cx.nfree }
+  pure H
+
+/-- verify one function's code: search for a table of heights, then check it (`accept`) -/
+def checkCx (cx : Cx) : Except String Summary :=
+  match search cx with
+  | .error e => .error e
+  | .ok H =>
+    if accept cx H && decide (cx.fn.numLocals ≤ P2sh.Gen.Limits.STACK_SIZE) &&
+        decide (cx.kind = .main → cx.fn.numLocals = 0) then
+      .ok { heights := H, maxHeight := H.foldl (fun m o => max m (o.getD 0)) 0, stmtStarts := stmtStartsOf cx H, nfree := cx.nfree }
+    else .error "verification-failed"
 
 def check (consts : List Val) (kind : Kind) (fn : FnDef) : Except String Summary :=
   checkCx { consts := consts, kind := kind, fn := fn }
